@@ -169,3 +169,59 @@ pub fn err_kind(e: &parity_db::Error) -> &'static str {
 		DatabaseNotFound => "DatabaseNotFound",
 	}
 }
+
+// ---------------------------------------------------------------------------------------------
+// Violation reporting with per-class de-duplication: a shard report keeps at most 50 violations,
+// so a frequent (possibly already known) defect must not crowd out a rarer one. Only the first
+// `WITNESSES_PER_CLASS` witnesses of a failure class are reported, the rest are counted.
+// ---------------------------------------------------------------------------------------------
+
+const WITNESSES_PER_CLASS: u32 = 2;
+const WITNESSES_PER_GROUP: u32 = 8;
+/// signature fields that only describe the witness, not the kind of failure
+const WITNESS_FIELDS: [&str; 11] =
+	["affected", "step", "cfg", "src_cfg", "dst_cfg", "col", "size", "requested", "phase", "sel", "overwrite"];
+/// fields that define the coarse group of a failure (what failed, under which circumstances)
+const GROUP_FIELDS: [&str; 8] = ["scenario", "part", "failure", "op", "logs", "src_reindex", "case", "mode"];
+
+thread_local! {
+	static CLASSES: std::cell::RefCell<BTreeMap<String, u32>> = std::cell::RefCell::new(BTreeMap::new());
+	static GROUPS: std::cell::RefCell<BTreeMap<String, u32>> = std::cell::RefCell::new(BTreeMap::new());
+}
+
+fn project(sig: &str, keep: &dyn Fn(&str) -> bool) -> String {
+	sig.split(';').filter(|kv| keep(kv.split('=').next().unwrap_or(""))).collect::<Vec<_>>().join(";")
+}
+
+pub fn violation_class(sig: &str) -> String {
+	project(sig, &|k| !WITNESS_FIELDS.contains(&k))
+}
+
+fn bump(m: &'static std::thread::LocalKey<std::cell::RefCell<BTreeMap<String, u32>>>, k: String) -> u32 {
+	m.with(|c| {
+		let mut c = c.borrow_mut();
+		let e = c.entry(k).or_insert(0);
+		*e += 1;
+		*e
+	})
+}
+
+pub fn violation(rep: &mut pv::Report, sig: impl Into<String>, detail: impl Into<String>, replay: pv::J) {
+	let sig = sig.into();
+	let n_class = bump(&CLASSES, violation_class(&sig));
+	rep.count("failing_checks", 1);
+	if n_class > WITNESSES_PER_CLASS {
+		rep.count("violations_suppressed_as_duplicates", 1);
+		return
+	}
+	let n_group = bump(&GROUPS, project(&sig, &|k| GROUP_FIELDS.contains(&k)));
+	if n_group > WITNESSES_PER_GROUP {
+		rep.count("violations_suppressed_as_duplicates", 1);
+		return
+	}
+	rep.violation(sig, detail, replay);
+}
+
+pub fn distinct_failure_classes() -> usize {
+	GROUPS.with(|c| c.borrow().len())
+}
